@@ -76,6 +76,28 @@ P = {
 NOT_YET = 'check not built yet in this round (planned, see DESIGN.md section 4); not claimed'
 
 
+# additions of round 6 (appended to the level texts above)
+ADD = {
+ 'C02': ' Chains ending with the self-signed root are served as well.',
+ 'C03': ' Also: well-formed chains whose leaf holds another valid key (opposite EC point, fresh key) and restarts with edited owner / mode options (unknown user and group names) before a due renewal.',
+ 'C04': ' An account URL the CA has replaced after a re-registration must not be named again.',
+ 'C05': ' Orders mix re-used (valid) and pending authorizations in every relative position.',
+ 'C06': ' Global renewal options are also given in included files; certificates without a name are found under the documented default file name.',
+ 'C07': ' Also: problem documents with long non-ASCII texts, hooks writing more than a pipe holds on their output streams.',
+ 'C08': ' An attempt whose request was finally refused asks nothing more of the CA.',
+ 'C09': ' Black-box runs also put several accounts on one limited endpoint.',
+ 'C10': ' Also: variables private to one identifier, groups reached twice through sub-groups of one parent.',
+ 'C11': ' A changed binding must reach the CA in a newAccount request.',
+ 'C12': ' Also: one request of one certificate answered with a recoverable error at every try while siblings share its account and endpoint.',
+ 'C15': ' Loaded RSA keys include moduli that leave their top bits unused.',
+ 'C16': ' Value files may be named pipes or /dev/stdin.',
+ 'C17': ' Also: clients that complete a handshake and stay connected in silence.',
+ 'C18': ' Also: root files replaced in place with size and dates kept, root file names made of glob characters.',
+ 'C19': ' Also: include graphs whose files are reached along millions of paths, odd identifiers one at a time; the probe runs in short batches so that a load that never returns is attributed within minutes.',
+ 'C20': ' Also: the git group added to a store filled earlier; a responder already gone, with its pid file, when the clean hooks run.',
+}
+
+
 def main():
     os.chdir(ROOT)
     implemented = sorted(f[:-3].upper() for f in os.listdir('vf') if f.startswith('c') and f[1:3].isdigit() and f.endswith('.py'))
@@ -85,6 +107,7 @@ def main():
     na = []
     for pid in sorted(P):
         level, tech, text, note, ref = P[pid]
+        text += ADD.get(pid, '')
         if pid in implemented:
             checks.append({
                 'property_id': pid,
